@@ -37,10 +37,6 @@ Definition cross (a b : list T) : res (list T) :=
 (** operator*(double s, const Vector& v): v[i] * s *)
 Definition vscale_left (s : T) (v : list T) : list T := map (fun c => c * s) v.
 
-(** Angle(v1, v2) = acos(v1 * v2 / (v1.Norm() * v2.Norm())) *)
-Definition angle (v1 v2 : list T) : res T :=
-  if Nat.eqb (length v1) (length v2) then Ok (nacos Ops (vdot v1 v2 / (vnorm v1 * vnorm v2))) else Exit.
-
 (** Matrix::Product(const Matrix&): result(rows, M.Columns(), 0.0); result[i][j] += components[i][k] * M[k][j]
     (k ascending); conformable operands only (the harness multiplies 3x3 by 3x3). *)
 Definition mcol (m : list (list T)) (j : nat) : list T := map (fun row => nth0 Ops row j) m.
@@ -80,7 +76,7 @@ Definition spherical_antiparallel (r theta phi : T) : list T :=
   [r * nsin Ops theta * ncos Ops phi; - r * nsin Ops theta * nsin Ops phi; - r * ncos Ops theta].
 Definition spherical_general (r theta phi ev0 ev1 ev2 aux : T) : list T :=
   let cos_theta := ncos Ops theta in
-  let sin_theta := nsqrt Ops (one - cos_theta * cos_theta) in
+  let sin_theta := nsin Ops theta in
   let cos_phi := ncos Ops phi in
   let sin_phi := nsin Ops phi in
   let unit_vector :=
@@ -90,15 +86,17 @@ Definition spherical_general (r theta phi ev0 ev1 ev2 aux : T) : list T :=
   vscale_left r unit_vector.
 
 (** Spherical_Coordinates(r, theta, phi, axis); ev[0], ev[1], ev[2] go through Vector::operator[], which
-    exits for an axis with fewer than three components. *)
-Definition spherical_axis (r theta phi : T) (axis : list T) : res (list T) :=
+    exits for an axis with fewer than three components.  [hypot] stands for std::hypot, which is not a
+    NumOps primitive: the theorems instantiate it with its specification sqrt(x*x + y*y), the float
+    instance with libm's hypot (Float.hypot in the driver). *)
+Definition spherical_axis (hypot : T -> T -> T) (r theta phi : T) (axis : list T) : res (list T) :=
   match axis with
   | _ :: _ :: _ :: _ =>
       let ev := vnormalized axis in
       let ev0 := nth0 Ops ev 0 in
       let ev1 := nth0 Ops ev 1 in
       let ev2 := nth0 Ops ev 2 in
-      let aux := nsqrt Ops (ev0 * ev0 + ev1 * ev1) in
+      let aux := hypot ev0 ev1 in
       if neqb Ops (vnorm axis) zero || (neqb Ops aux zero && ngtb Ops ev2 zero) then
         Ok (spherical r theta phi)
       else if neqb Ops aux zero then
